@@ -1,6 +1,7 @@
 package eng
 
 import (
+	"go/ast"
 	"fmt"
 	"go/types"
 	"os"
@@ -223,6 +224,16 @@ func (e *Engine) checkPost(o outcome) {
 		t, ok := e.tryEvalBool(s, ctx, en.Expr)
 		if ok {
 			e.postSeen[k]++
+		} else if ce, isCall := en.Expr.(*ast.CallExpr); isCall && len(ce.Args) == 2 {
+			// "A ==> B" where B speaks about a call (or local) that does not occur on this path while A can
+			// be evaluated: B cannot hold here, so the path must not satisfy A. (Skipping the clause would
+			// let a path that simply omits the call pass.)
+			if id, isId := ce.Fun.(*ast.Ident); isId && id.Name == "implies" {
+				if a, okA := e.tryEvalBool(s, ctx, ce.Args[0]); okA {
+					e.postSeen[k]++
+					t = not(a)
+				}
+			}
 		}
 		e.assert(s, fmt.Sprintf("%s/post#%d", e.FnKey, k), "post", fn.Pos(), en.Text, t)
 	}
